@@ -395,7 +395,13 @@ class Doc:
                 raise Unsupported("use inside clipPath")
             if t not in ("path", "rect", "circle", "ellipse", "line", "polygon", "polyline"):
                 continue
-            rule = cprops.get("clip-rule", props.get("clip-rule", "nonzero"))
+            # clip-rule is inherited: own value, else the clipPath's, else the nearest ancestor's of the clipPath
+            rule = cprops.get("clip-rule", props.get("clip-rule"))
+            anc = clip_el.getparent()
+            while rule is None and anc is not None:
+                rule = own_props(anc).get("clip-rule")
+                anc = anc.getparent()
+            rule = rule or "nonzero"
             r = self.in_fill(ch, cm, x, y, rule)
             if r is UNKNOWN:
                 return UNKNOWN
